@@ -256,7 +256,7 @@ def gen_cases(rng, tier):
         w, b = eighths(rng, C, -8, 8, 4.0), eighths(rng, C, -8, 8, 4.0)
         args = "%s %s %s %s %s %s %r %d" % (dt, fmt_foperand(xs, x), fmt_foperand([C], mean), fmt_foperand([C], var), fmt_foperand([C], w), fmt_foperand([C], b), eps, dflt)
         cases.append(dict(op="nn_batch_norm", args=args, dtype=dt, xs=xs, x=x, mean=mean, var=var, w=w, b=b, eps=eps, dflt=dflt))
-    for _ in range(200 if quick else 4000):
+    for _ in range(200 if quick else 2000):
         while True:
             d = rng.randint(2, 4)
             xs = [rng.randint(1, 4) for _ in range(d)]
@@ -270,7 +270,7 @@ def gen_cases(rng, tier):
         x, w, b = eighths(rng, size(xs)), eighths(rng, size(ns), -8, 8, 4.0), eighths(rng, size(ns), -8, 8, 4.0)
         args = "%s %s %s %s %r %d" % (dt, fmt_foperand(xs, x), fmt_foperand(ns, w), fmt_foperand(ns, b), eps, dflt)
         cases.append(dict(op="nn_layer_norm", args=args, dtype=dt, xs=xs, x=x, ns=ns, w=w, b=b, eps=eps, dflt=dflt))
-    for _ in range(150 if quick else 3000):
+    for _ in range(150 if quick else 2000):
         while True:
             nd = rng.randint(1, 2)
             xs = [rng.randint(1, 3), rng.randint(1, 4)] + [rng.randint(1, 4) for _ in range(nd)]
@@ -282,7 +282,7 @@ def gen_cases(rng, tier):
         x, w, b = eighths(rng, size(xs)), eighths(rng, C, -8, 8, 4.0), eighths(rng, C, -8, 8, 4.0)
         args = "%d %s %s %s %s %r" % (nd, dt, fmt_foperand(xs, x), fmt_foperand([C], w), fmt_foperand([C], b), eps)
         cases.append(dict(op="nn_instance_norm", args=args, dtype=dt, xs=xs, x=x, w=w, b=b, eps=eps, nd=nd))
-    for _ in range(200 if quick else 4000):
+    for _ in range(200 if quick else 2000):
         while True:
             nsp = rng.randint(1, 2)
             C = rng.randint(1, 6)
